@@ -2,7 +2,7 @@
 
 Bounded-exhaustive enumeration (E3) over the abstract trace domain of
 ``mc.tracedomain``: for every registry, EVERY abstract execution trace (per
-predicate hit count 0/1/>=2 with true/false distances from {0, 0.5, 1, 7, inf}
+predicate hit count 0/1/>=2 with true/false distances from {0, 5e-17, 0.5, 1, 7, inf}
 that respect the tracer's invariant, every consistent subset of executed code
 objects, every subset of covered and of checked lines) is wrapped in a real
 ``ExecutionResult`` behind a fake executor and evaluated through real
@@ -631,7 +631,7 @@ def run(ctx):
     ctx.require(len(ctx.col.sets.get("outcomes", ())) > 40, "vacuous: too few distinct outcomes")
     ctx.require(len(ctx.col.sets.get("nontrivial", ())) >= 2, "vacuous: no non-trivial case")
     ctx.note("registries", td.registry_names(ctx.tier))
-    ctx.note("distances", ["absent", 0.0, 0.5, 1.0, 7.0, "inf"])
+    ctx.note("distances", ["absent", 0.0, 5e-17, 0.5, 1.0, 7.0, "inf"])
     ctx.note("hit_counts", [0, 1, 2])
     ctx.exhaustive = True
     ctx.rule = ("a case is (registry, multiset of <= 3 abstract traces); distinct by the "
@@ -644,7 +644,7 @@ def run(ctx):
                "predicate ran although its controlling predicate did not are included "
                "(over-approximation of what the tracer can produce; none of them raised an alarm)")
     ctx.assume("hit count 2 represents every count >= 2; distances are drawn from "
-               "{0, 0.5, 1, 7, inf} (NaN and negative distances are C04's subject)")
+               "{0, 5e-17, 0.5, 1, 7, inf} (NaN and negative distances are C04's subject)")
     ctx.assume("assertion-checked coverage is exercised with an empty executed_assertions list "
                "only (slicing real instruction traces is C09's subject)")
 
